@@ -72,7 +72,11 @@ def rot_relations(rotation_matrix, axis, theta, rng):
     R2 = rotation_matrix(axis, th2)
     R12 = rotation_matrix(axis, theta + th2)
     Rs = rotation_matrix(axis * rng.choice([1e-3, 0.5, 7.0, 1e3]), theta)
+    # the last request of this axis uses the caller's array again: the next request (that array refilled in place with
+    # another axis) then follows it directly, with no other array object in between
+    Rlast = rotation_matrix(axis, theta)
     rel = _rot_rel(R, Rm, R2, R12, Rs, n, theta)
+    rel['transpose'] = bool(rel['transpose'] and np.array_equal(Rlast, R))
     # a returned matrix belongs to the caller: overwriting it in place must not affect any later result
     for M in (R, Rm, R2, R12, Rs):
         try:
